@@ -1,7 +1,574 @@
-From Coq Require Import QArith Qabs List Bool ZArith Lqa.
-Require Import SkV.C06.Model.
+(* C06: the laws of the metrics, proved for all rational inputs. *)
+From Coq Require Import QArith Qabs Qpower List Bool ZArith Lia Lqa Permutation.
+Require Import SkV.C06.Model SkV.C06.Agg.
 Import ListNotations.
 Open Scope Q_scope.
 
-Lemma EPS_pos : 0 < EPS.
-Proof. reflexivity. Qed.
+(* ---------------------------------------------------------------- point losses *)
+
+Lemma pwf0_nonneg k e : 0 <= pwf0 k e.
+Proof. destruct k; simpl; [apply Qabs_nonneg | nra]. Qed.
+Lemma pwf_nonneg k e : 0 <= pwf k e.
+Proof. destruct k; simpl; [|destruct (qltb e thr)]; apply pwf0_nonneg. Qed.
+Lemma pwf0_compat k e e' : e == e' -> pwf0 k e == pwf0 k e'.
+Proof. intro H. destruct k; simpl; rewrite H; reflexivity. Qed.
+Lemma pwf_compat k e e' : e == e' -> pwf k e == pwf k e'.
+Proof.
+  intro H. destruct k; simpl; [apply pwf0_compat; assumption|].
+  rewrite (qltb_compat e e' thr thr H (Qeq_refl thr)).
+  destruct (qltb e' thr); apply pwf0_compat; assumption.
+Qed.
+Lemma pwf0_zero k e : e == 0 -> pwf0 k e == 0.
+Proof. intro H. rewrite (pwf0_compat k e 0 H). destruct k; reflexivity. Qed.
+Lemma pwf_zero k e : e == 0 -> pwf k e == 0.
+Proof.
+  intro H. destruct k; simpl; [|destruct (qltb e thr)]; apply pwf0_zero; assumption.
+Qed.
+
+Definition sc (k : pw0) (c : Q) : Q := match k with PAbs => c | PSq => c * c end.
+Lemma sc_pos k c : 0 < c -> 0 < sc k c.
+Proof. destruct k; simpl; nra. Qed.
+Lemma pwf0_scale k c e : 0 < c -> pwf0 k (c * e) == sc k c * pwf0 k e.
+Proof.
+  intro Hc. destruct k; cbn [pwf0 sc]; [|ring].
+  rewrite Qabs_Qmult, (Qabs_pos c); [reflexivity | lra].
+Qed.
+
+(* the asymmetric threshold switch *)
+Lemma asym_left thr lf rf e : e < thr -> pwf (PAsym thr lf rf) e = pwf0 lf e.
+Proof. intro H. simpl. apply qltb_true in H. rewrite H. reflexivity. Qed.
+Lemma asym_right thr lf rf e : thr <= e -> pwf (PAsym thr lf rf) e = pwf0 rf e.
+Proof. intro H. simpl. apply qltb_false in H. rewrite H. reflexivity. Qed.
+Lemma asym_same thr f e : pwf (PAsym thr f f) e = pwf (P0 f) e.
+Proof. simpl. destruct (qltb e thr); reflexivity. Qed.
+
+(* ---------------------------------------------------------------- percentage error *)
+
+Lemma abs_diff_le t p : Qabs (t - p) <= Qabs t + Qabs p.
+Proof.
+  setoid_replace (t - p) with (t + - p) by ring.
+  eapply Qle_trans; [apply Qabs_triangle|]. rewrite Qabs_opp. lra.
+Qed.
+
+Lemma pct_sym_swap t p : pct_err true t p == pct_err true p t.
+Proof.
+  unfold pct_err. rewrite (Qabs_Qminus t p).
+  rewrite (qmax_compat (Qabs t + Qabs p) (Qabs p + Qabs t) EPS EPS); [reflexivity | ring | reflexivity].
+Qed.
+Lemma pct_sym_range t p : 0 <= pct_err true t p <= 2.
+Proof.
+  unfold pct_err. pose proof (qmax_eps_pos (Qabs t + Qabs p)) as D.
+  pose proof (qmax_ge_l (Qabs t + Qabs p) EPS) as G.
+  pose proof (Qabs_nonneg (t - p)) as N. pose proof (abs_diff_le t p) as L. split.
+  - apply Qle_shift_div_l; [assumption | lra].
+  - apply Qle_shift_div_r; [assumption | lra].
+Qed.
+Lemma pct_sym_zero t p : t == p -> pct_err true t p == 0.
+Proof.
+  intro H. unfold pct_err. setoid_replace (t - p) with 0 by lra.
+  change (Qabs 0) with 0. unfold Qdiv. ring.
+Qed.
+Lemma pct_asym_zero t p : t == p -> pct_err false t p == 0.
+Proof. intro H. unfold pct_err. setoid_replace (t - p) with 0 by lra. unfold Qdiv. ring. Qed.
+Lemma pct_zero s t p : t == p -> pct_err s t p == 0.
+Proof. destruct s; [apply pct_sym_zero | apply pct_asym_zero]. Qed.
+(* away from the clamp these are the published formulas *)
+Lemma pct_asym_unclamped t p : EPS <= Qabs t -> pct_err false t p == (t - p) / Qabs t.
+Proof. intro H. unfold pct_err. rewrite (qmax_hyp _ H). reflexivity. Qed.
+Lemma pct_sym_unclamped t p : EPS <= Qabs t + Qabs p ->
+  pct_err true t p == 2 * Qabs (t - p) / (Qabs t + Qabs p).
+Proof. intro H. unfold pct_err. rewrite (qmax_hyp _ H). reflexivity. Qed.
+
+(* ---------------------------------------------------------------- relative error *)
+
+Lemma rel_den_spec t b :
+  (0 <= t - b -> EPS <= rel_den t b /\ rel_den t b == qmax (t - b) EPS) /\
+  (t - b < 0 -> rel_den t b <= - EPS /\ rel_den t b == qmin (t - b) (- EPS)) /\
+  (EPS <= Qabs (t - b) -> rel_den t b == t - b).
+Proof.
+  unfold rel_den. pose proof EPS_pos as E. destruct (Qle_bool 0 (t - b)) eqn:S.
+  - apply Qle_bool_iff in S. split; [|split].
+    + intros _. split; [apply qmax_ge_r | reflexivity].
+    + intro H. lra.
+    + intro H. rewrite (Qabs_pos _ S) in H. apply qmax_hyp. assumption.
+  - apply Qle_bool_false in S. split; [|split].
+    + intro H. lra.
+    + intros _. split; [|reflexivity].
+      destruct (qmin_case (t - b) (- EPS)) as [[L ->]|[L ->]]; lra.
+    + intro H. rewrite (Qabs_neg (t - b)) in H by lra.
+      destruct (qmin_case (t - b) (- EPS)) as [[L ->]|[L ->]]; lra.
+Qed.
+Lemma rel_den_abs t b : EPS <= Qabs (rel_den t b).
+Proof.
+  pose proof EPS_pos as E.
+  destruct (rel_den_spec t b) as [P [N _]]. destruct (Qlt_le_dec (t - b) 0) as [H|H].
+  - destruct (N H) as [L _]. rewrite Qabs_neg; lra.
+  - destruct (P H) as [L _]. rewrite Qabs_pos; lra.
+Qed.
+Lemma rel_err_zero t p b : t == p -> rel_err t p b == 0.
+Proof. intro H. unfold rel_err. setoid_replace (t - p) with 0 by lra. unfold Qdiv. ring. Qed.
+Lemma rel_err_bound t p b : Qabs (rel_err t p b) <= Qabs (t - p) / EPS.
+Proof.
+  unfold rel_err, Qdiv. rewrite Qabs_Qmult, Qabs_Qinv.
+  pose proof (rel_den_abs t b) as D. pose proof EPS_pos as E. pose proof (Qabs_nonneg (t - p)) as N.
+  set (a := Qabs (t - p)) in *. set (d := Qabs (rel_den t b)) in *.
+  change (a / d <= a / EPS). apply Qle_shift_div_r; [lra|].
+  setoid_replace (a / EPS * d) with (a * d / EPS) by (field; lra).
+  apply Qle_shift_div_l; [lra | nra].
+Qed.
+
+(* ---------------------------------------------------------------- lists built with map2/map3 *)
+
+Lemma map2_Forall {A B} (P : Q -> Prop) (f : A -> B -> Q) l1 l2 :
+  (forall a b, P (f a b)) -> Forall P (map2 f l1 l2).
+Proof.
+  intro H. unfold map2. apply Forall_forall. intros x Hx. apply in_map_iff in Hx.
+  destruct Hx as [[a b] [<- _]]. apply H.
+Qed.
+Lemma map_Forall (P : Q -> Prop) (f : Q -> Q) l : (forall a, P (f a)) -> Forall P (map f l).
+Proof.
+  intro H. apply Forall_forall. intros x Hx. apply in_map_iff in Hx.
+  destruct Hx as [a [<- _]]. apply H.
+Qed.
+Lemma combine_same {A} (l : list A) a b : In (a, b) (combine l l) -> a = b.
+Proof.
+  induction l as [|x l IH]; simpl; [tauto|]. intros [E|H]; [congruence | auto].
+Qed.
+Lemma combine3_same {A B} (l : list A) (lb : list B) a b c :
+  In (a, (b, c)) (combine l (combine l lb)) -> a = b.
+Proof.
+  revert lb; induction l as [|x l IH]; intros [|y lb]; simpl; try tauto.
+  intros [E|H]; [congruence | eauto].
+Qed.
+Lemma map2_same (P : Q -> Prop) (f : Q -> Q -> Q) l : (forall a, P (f a a)) -> Forall P (map2 f l l).
+Proof.
+  intro H. unfold map2. apply Forall_forall. intros x Hx. apply in_map_iff in Hx.
+  destruct Hx as [[a b] [<- Hin]]. apply combine_same in Hin. subst. apply H.
+Qed.
+Lemma map3_same (P : Q -> Prop) (f : Q -> Q -> Q -> Q) l lb :
+  (forall a c, P (f a a c)) -> Forall P (map3 f l l lb).
+Proof.
+  intro H. unfold map3. apply Forall_forall. intros x Hx. apply in_map_iff in Hx.
+  destruct Hx as [[a [b c]] [<- Hin]]. apply combine3_same in Hin. subst. apply H.
+Qed.
+Lemma map2_swap (f g : Q -> Q -> Q) l1 l2 :
+  (forall a b, f a b == g b a) -> eql (map2 f l1 l2) (map2 g l2 l1).
+Proof.
+  intro H. revert l2; induction l1 as [|a l1 IH]; intros [|b l2]; try constructor.
+  - apply H.
+  - apply IH.
+Qed.
+Lemma map2_scale (f : Q -> Q -> Q) c s l1 l2 :
+  (forall a b, f (c * a) (c * b) == s * f a b) ->
+  eql (map2 f (map (Qmult c) l1) (map (Qmult c) l2)) (map (Qmult s) (map2 f l1 l2)).
+Proof.
+  intro H. revert l2; induction l1 as [|a l1 IH]; intros [|b l2]; try constructor.
+  - apply H.
+  - apply IH.
+Qed.
+
+(* ---------------------------------------------------------------- aggregates *)
+
+Definition hw_ok (hw : option (list Q)) : Prop :=
+  match hw with None => True | Some w => all_nonneg w end.
+
+Lemma agg_nonneg a hw l : hw_ok hw -> all_nonneg l -> 0 <= agg a hw l.
+Proof.
+  intros Hw Hl. destruct a, hw as [w|]; simpl in *;
+    try (apply mean_nonneg; assumption); try (apply wmean_nonneg; assumption);
+    try (apply median_nonneg; assumption).
+  apply (wpercentile_Forall nonneg); [assumption | unfold nonneg; lra].
+Qed.
+Lemma agg_upper hi a hw l : 0 <= hi -> hw_ok hw -> Forall (fun x => x <= hi) l -> agg a hw l <= hi.
+Proof.
+  intros Hh Hw Hl. destruct a, hw as [w|]; simpl in *;
+    try (apply mean_upper; assumption); try (apply wmean_upper; assumption);
+    try (apply median_upper; assumption).
+  apply (wpercentile_Forall (fun x => x <= hi)); assumption.
+Qed.
+Lemma agg_zero a hw l : Forall (fun x => x == 0) l -> agg a hw l == 0.
+Proof.
+  intros Hl. destruct a, hw as [w|]; simpl;
+    try (apply mean_zero; assumption); try (apply wmean_zero; assumption);
+    try (apply median_zero; assumption).
+  apply (wpercentile_Forall (fun x => x == 0)); [assumption | reflexivity].
+Qed.
+Lemma agg_scale c a hw l : 0 < c -> agg a hw (map (Qmult c) l) == c * agg a hw l.
+Proof.
+  intros Hc. destruct a, hw as [w|]; simpl;
+    try apply mean_scale; try apply wmean_scale;
+    try (apply median_scale; assumption); apply wpercentile_scale; assumption.
+Qed.
+Lemma agg_eql a hw l l' : eql l l' -> agg a hw l == agg a hw l'.
+Proof.
+  intros H. destruct a, hw as [w|]; simpl;
+    try (apply mean_eql; assumption); try (apply wmean_eql; assumption);
+    try (apply median_eql; assumption); apply wpercentile_eql; assumption.
+Qed.
+(* horizon weights: only their proportions matter; equal weights are no weights for means *)
+Lemma agg_weights_scale_free c a w l : 0 < c ->
+  agg a (Some (map (Qmult c) w)) l == agg a (Some w) l.
+Proof.
+  intros Hc. destruct a; simpl; try (apply wmean_scale_weights; lra).
+  apply wpercentile_scale_weights; assumption.
+Qed.
+Lemma agg_equal_weights c l : ~ c == 0 -> agg Mean (Some (repeat c (length l))) l == agg Mean None l.
+Proof. intro Hc. simpl. apply wmean_equal_weights. assumption. Qed.
+
+Definition mo_ok (mo : mout) : Prop :=
+  match mo with Weights w => all_nonneg w | _ => True end.
+
+Lemma mo_avg_nonneg mo l : mo_ok mo -> all_nonneg l -> all_nonneg (mo_avg mo l).
+Proof.
+  intros Hm Hl. destruct mo; simpl in *; [assumption | |]; constructor; try constructor.
+  - apply mean_nonneg; assumption.
+  - apply wmean_nonneg; assumption.
+Qed.
+Lemma mo_avg_upper hi mo l : 0 <= hi -> mo_ok mo -> Forall (fun x => x <= hi) l ->
+  Forall (fun x => x <= hi) (mo_avg mo l).
+Proof.
+  intros Hh Hm Hl. destruct mo; simpl in *; [assumption | |]; constructor; try constructor.
+  - apply mean_upper; assumption.
+  - apply wmean_upper; assumption.
+Qed.
+Lemma mo_avg_zero mo l : Forall (fun x => x == 0) l -> Forall (fun x => x == 0) (mo_avg mo l).
+Proof.
+  intros Hl. destruct mo; simpl; [assumption | |]; constructor; try constructor.
+  - apply mean_zero; assumption.
+  - apply wmean_zero; assumption.
+Qed.
+Lemma mo_avg_scale c mo l : eql (mo_avg mo (map (Qmult c) l)) (map (Qmult c) (mo_avg mo l)).
+Proof.
+  destruct mo; simpl; [apply eql_refl | |]; constructor; try constructor.
+  - apply mean_scale.
+  - apply wmean_scale.
+Qed.
+Lemma mo_avg_eql mo l l' : eql l l' -> eql (mo_avg mo l) (mo_avg mo l').
+Proof.
+  intro H. destruct mo; simpl; [assumption | |]; constructor; try constructor.
+  - apply mean_eql; assumption.
+  - apply wmean_eql; assumption.
+Qed.
+
+(* ---------------------------------------------------------------- geometric mean *)
+
+Lemma clamp0_pos x : 0 <= x -> 0 < clamp0 x.
+Proof.
+  intro H. unfold clamp0. destruct (Qeq_bool x 0) eqn:E; [apply EPS_pos|].
+  apply Qeq_bool_neq in E. destruct (Qle_lt_or_eq _ _ H) as [L|L]; [assumption|].
+  exfalso. apply E. symmetry. assumption.
+Qed.
+Lemma clamp0_zero x : x == 0 -> clamp0 x = EPS.
+Proof. intro H. unfold clamp0. apply Qeq_bool_iff in H. rewrite H. reflexivity. Qed.
+
+Lemma gm_pre_pos W l : all_nonneg l -> 0 < gm_pre W l.
+Proof.
+  unfold gm_pre. revert W; induction l as [|x l IH]; intros W Hl.
+  - unfold map2. simpl. lra.
+  - destruct W as [|w W]; [unfold map2; simpl; lra|].
+    rewrite map2_cons. cbn [fold_right]. inversion Hl; subst.
+    apply Qmult_lt_0_compat; [|apply IH; assumption].
+    apply Qpower_0_lt. apply clamp0_pos. assumption.
+Qed.
+(* perfect forecast: every term sits at the EPS floor, so the product is EPS ^ (sum of weights) *)
+Lemma gm_pre_floor W l : Forall (fun x => x == 0) l -> length W = length l ->
+  gm_pre W l == EPS ^ gm_deg W.
+Proof.
+  unfold gm_pre, gm_deg. revert W; induction l as [|x l IH]; intros W Hl Hlen.
+  - destruct W; [|discriminate]. unfold map2. simpl. reflexivity.
+  - destruct W as [|w W]; [discriminate|]. rewrite map2_cons. cbn [fold_right].
+    inversion Hl; subst. rewrite (clamp0_zero x H1), (IH W H2) by (simpl in Hlen; lia).
+    rewrite Qpower_plus; [reflexivity|]. intro E. discriminate E.
+Qed.
+
+(* a non-negative number is determined by its n-th power: links the pre-root quantities of the
+   model to the values the implementation returns *)
+Lemma pow_pos_mono (n : positive) a b : 0 <= a -> a < b -> a ^ Zpos n < b ^ Zpos n.
+Proof.
+  intros Ha Hab. induction n using Pos.peano_ind.
+  - rewrite !Qpower_1_r. assumption.
+  - rewrite Pos2Z.inj_succ, <- Z.add_1_r.
+    assert (0 < b) as Hb by lra.
+    rewrite (Qpower_plus' a), (Qpower_plus' b) by lia. rewrite !Qpower_1_r.
+    assert (0 <= a ^ Z.pos n) by (apply Qpower_0_le; assumption).
+    nra.
+Qed.
+Lemma root_unique (n : positive) s s' : 0 <= s -> 0 <= s' -> s ^ Zpos n == s' ^ Zpos n -> s == s'.
+Proof.
+  intros Hs Hs' H. destruct (Q_dec s s') as [[L|L]|E]; [| |assumption].
+  - pose proof (pow_pos_mono n s s' Hs L). lra.
+  - pose proof (pow_pos_mono n s' s Hs' L). lra.
+Qed.
+Lemma root_zero (n : positive) s : s ^ Zpos n == 0 -> s == 0.
+Proof.
+  intro H. destruct (Qeq_dec s 0) as [E|E]; [assumption|].
+  exfalso. apply (Qpower_not_0 s (Zpos n) E). assumption.
+Qed.
+Lemma root_le (n : positive) s b : 0 <= s -> 0 <= b -> s ^ Zpos n <= b ^ Zpos n -> s <= b.
+Proof.
+  intros Hs Hb H. destruct (Qlt_le_dec b s) as [L|L]; [|assumption].
+  pose proof (pow_pos_mono n b s Hb L). lra.
+Qed.
+
+(* ---------------------------------------------------------------- base errors *)
+
+Definition perfect (c : col) : Prop := c_pred c = c_true c.
+Definition swap_col (c : col) : col := mkcol (c_pred c) (c_true c) (c_bench c) (c_train c).
+Definition scale_col (k : Q) (c : col) : col :=
+  mkcol (map (Qmult k) (c_true c)) (map (Qmult k) (c_pred c)) (map (Qmult k) (c_bench c))
+        (map (Qmult k) (c_train c)).
+
+Lemma base_errs_perfect b c : perfect c -> Forall (fun x => x == 0) (base_errs b c).
+Proof.
+  unfold perfect. intro H. destruct b; simpl; rewrite H.
+  - apply map2_same. intro a. ring.
+  - apply map2_same. intro a. apply pct_zero. reflexivity.
+  - apply map3_same. intros a x. apply rel_err_zero. reflexivity.
+Qed.
+Lemma pt_perfect b k c : perfect c -> Forall (fun x => x == 0) (pt b k c).
+Proof.
+  intro H. unfold pt. pose proof (base_errs_perfect b c H) as Z.
+  induction Z; simpl; constructor; [apply pwf_zero; assumption | assumption].
+Qed.
+Lemma pt_nonneg b k c : all_nonneg (pt b k c).
+Proof. unfold pt. apply map_Forall. intro a. apply pwf_nonneg. Qed.
+
+Lemma pt_swap k c : eql (pt (BPct true) k (swap_col c)) (pt (BPct true) k c).
+Proof.
+  unfold pt. simpl. apply eql_map; [intros; apply pwf_compat; assumption|].
+  apply map2_swap. intros. apply pct_sym_swap.
+Qed.
+Lemma pt_pct_abs_range c :
+  Forall (fun x => x <= 2) (pt (BPct true) (P0 PAbs) c).
+Proof.
+  unfold pt. simpl. rewrite map_map. unfold map2. rewrite map_map.
+  apply Forall_forall. intros x Hx. apply in_map_iff in Hx. destruct Hx as [[t p] [<- _]].
+  simpl. destruct (pct_sym_range t p). rewrite Qabs_pos; assumption.
+Qed.
+Lemma pt_pct_sq_range c :
+  Forall (fun x => x <= 4) (pt (BPct true) (P0 PSq) c).
+Proof.
+  unfold pt. simpl. rewrite map_map. unfold map2. rewrite map_map.
+  apply Forall_forall. intros x Hx. apply in_map_iff in Hx. destruct Hx as [[t p] [<- _]].
+  simpl. destruct (pct_sym_range t p). nra.
+Qed.
+
+Lemma pt_plain_scale k c cl : 0 < c ->
+  eql (pt BPlain (P0 k) (scale_col c cl)) (map (Qmult (sc k c)) (pt BPlain (P0 k) cl)).
+Proof.
+  intro Hc. unfold pt. simpl. unfold map2. rewrite !map_map.
+  generalize (c_pred cl). induction (c_true cl) as [|t l IH]; intros [|p l']; try constructor.
+  - simpl. rewrite <- (pwf0_scale k c (t - p) Hc). apply pwf0_compat. ring.
+  - apply IH.
+Qed.
+Lemma skipn_map {A B} (f : A -> B) n l : skipn n (map f l) = map f (skipn n l).
+Proof. revert l; induction n; intros [|x l]; simpl; auto. Qed.
+Lemma naive_scale k sp c l : 0 < c ->
+  eql (naive_errs k sp (map (Qmult c) l)) (map (Qmult (sc k c)) (naive_errs k sp l)).
+Proof.
+  intro Hc. unfold naive_errs. rewrite skipn_map.
+  apply (map2_scale (fun a b => pwf0 k (a - b)) c (sc k c)).
+  intros a b. rewrite <- (pwf0_scale k c (a - b) Hc). apply pwf0_compat. ring.
+Qed.
+
+(* ---------------------------------------------------------------- metric-level statements *)
+
+Definition wf (c : fcase) : Prop := hw_ok (f_hw c) /\ mo_ok (f_mo c).
+
+Lemma ratio_nonneg num den : all_nonneg num -> all_nonneg (ratio num den).
+Proof.
+  intro H. unfold ratio, map2. revert den; induction H as [|x l Hx Hl IH]; intros [|d den];
+    simpl; constructor; [|apply IH].
+  apply div_nonneg; [assumption|]. pose proof (qmax_eps_pos d). unfold nonneg. lra.
+Qed.
+Lemma ratio_zero num den : Forall (fun x => x == 0) num -> Forall (fun x => x == 0) (ratio num den).
+Proof.
+  intro H. unfold ratio, map2. revert den; induction H as [|x l Hx Hl IH]; intros [|d den];
+    simpl; constructor; [|apply IH].
+  rewrite Hx. unfold Qdiv. ring.
+Qed.
+
+Lemma map_all_nonneg {A} (f : A -> Q) l : (forall a, 0 <= f a) -> all_nonneg (map f l).
+Proof. intro H. induction l; simpl; constructor; [apply H | assumption]. Qed.
+Lemma map_all_zero {A} (f : A -> Q) (P : A -> Prop) l :
+  Forall P l -> (forall a, P a -> f a == 0) -> Forall (fun x => x == 0) (map f l).
+Proof. intros Hl H. induction Hl; simpl; constructor; [apply H; assumption | assumption]. Qed.
+
+(* every loss is non-negative *)
+Theorem pre_values_nonneg c : wf c -> all_nonneg (pre_values c).
+Proof.
+  intros [Hw Hm]. unfold pre_values. destruct (fam (f_m c)) as [b k a|k a sp|k a].
+  - apply map_all_nonneg. intro cl. unfold col_agg. destruct a;
+      try (apply agg_nonneg; [assumption | apply pt_nonneg]).
+    apply Qlt_le_weak. apply gm_pre_pos. apply pt_nonneg.
+  - apply ratio_nonneg. apply mo_avg_nonneg; [assumption|]. apply map_all_nonneg.
+    intro cl. apply agg_nonneg; [assumption | apply pt_nonneg].
+  - apply ratio_nonneg. apply mo_avg_nonneg; [assumption|]. apply map_all_nonneg.
+    intro cl. apply agg_nonneg; [assumption | apply pt_nonneg].
+Qed.
+Theorem post_nonneg c roots : wf c -> all_nonneg roots -> all_nonneg (post c roots).
+Proof.
+  intros [Hw Hm] H. unfold post. destruct (fam (f_m c)); [apply mo_avg_nonneg|..]; assumption.
+Qed.
+
+(* ... and zero for a perfect forecast; geometric means sit at the EPS floor *)
+Theorem pre_values_perfect c : Forall perfect (f_cols c) -> fam_agg (fam (f_m c)) <> GMean ->
+  Forall (fun x => x == 0) (pre_values c).
+Proof.
+  intros Hp Hg. unfold pre_values. destruct (fam (f_m c)) as [b k a|k a sp|k a]; simpl in Hg.
+  - apply (map_all_zero _ perfect); [assumption|]. intros cl Hcl. unfold col_agg.
+    destruct a; try congruence; apply agg_zero; apply pt_perfect; assumption.
+  - apply ratio_zero. apply mo_avg_zero. apply (map_all_zero _ perfect); [assumption|].
+    intros cl Hcl. apply agg_zero. apply pt_perfect. assumption.
+  - apply ratio_zero. apply mo_avg_zero. apply (map_all_zero _ perfect); [assumption|].
+    intros cl Hcl. apply agg_zero. apply pt_perfect. assumption.
+Qed.
+Theorem post_zero c roots : Forall (fun x => x == 0) roots -> Forall (fun x => x == 0) (post c roots).
+Proof.
+  intro H. unfold post. destruct (fam (f_m c)); [apply mo_avg_zero|..]; assumption.
+Qed.
+
+Lemma pt_length b k cl : length (c_true cl) = length (c_pred cl) ->
+  (b = BRel -> length (c_bench cl) = length (c_true cl)) ->
+  length (pt b k cl) = length (c_true cl).
+Proof.
+  intros H1 H2. unfold pt. rewrite map_length. destruct b; simpl; unfold map2, map3;
+    rewrite map_length, !combine_length; try lia.
+  specialize (H2 eq_refl). lia.
+Qed.
+
+Definition shaped (n : nat) (cl : col) : Prop :=
+  length (c_true cl) = n /\ length (c_pred cl) = n /\ length (c_bench cl) = n.
+
+Theorem gmean_perfect_floor b k rt mo hw cols n :
+  Forall perfect cols -> Forall (shaped n) cols ->
+  (forall w, hw = Some w -> length w = n) ->
+  let c := mkfcase (mkmetric (FSimple b k GMean) rt) mo hw cols in
+  Forall (fun x => x == EPS ^ gm_deg (gm_weights hw n)) (pre_values c).
+Proof.
+  intros Hp Hs Hw c. unfold pre_values, c. simpl.
+  apply Forall_forall. intros x Hx. apply in_map_iff in Hx. destruct Hx as [cl [<- Hin]].
+  rewrite Forall_forall in Hp, Hs. specialize (Hp cl Hin). destruct (Hs cl Hin) as [L1 [L2 L3]].
+  assert (length (pt b k cl) = n) as Hl.
+  { rewrite pt_length; [assumption | congruence | intros; congruence]. }
+  rewrite Hl. apply gm_pre_floor; [apply pt_perfect; assumption|]. rewrite Hl.
+  unfold gm_weights. destruct hw as [w|]; [rewrite map_length; apply Hw; reflexivity|].
+  apply repeat_length.
+Qed.
+
+(* symmetric percentage errors: swapping truth and forecast changes nothing, values in [0, 2] *)
+Theorem pct_symmetric_swap k a rt mo hw cols : a <> GMean ->
+  let m := mkmetric (FSimple (BPct true) k a) rt in
+  eql (pre_values (mkfcase m mo hw (map swap_col cols))) (pre_values (mkfcase m mo hw cols)).
+Proof.
+  intros Ha m. unfold pre_values. simpl. rewrite map_map.
+  induction cols as [|cl cols IH]; simpl; constructor; [|assumption].
+  unfold col_agg. destruct a; try congruence; apply agg_eql; apply pt_swap.
+Qed.
+Theorem pct_symmetric_abs_range a mo hw cols : a <> GMean -> hw_ok hw ->
+  let m := mkmetric (FSimple (BPct true) (P0 PAbs) a) false in
+  Forall (fun x => 0 <= x <= 2) (pre_values (mkfcase m mo hw cols)).
+Proof.
+  intros Ha Hw m. unfold pre_values. simpl. apply Forall_forall. intros x Hx.
+  apply in_map_iff in Hx. destruct Hx as [cl [<- _]]. unfold col_agg.
+  destruct a; try congruence; (split; [apply agg_nonneg; [assumption | apply pt_nonneg] |
+    apply agg_upper; [lra | assumption | apply pt_pct_abs_range]]).
+Qed.
+Theorem pct_symmetric_sq_range a rt mo hw cols : a <> GMean -> hw_ok hw ->
+  let m := mkmetric (FSimple (BPct true) (P0 PSq) a) rt in
+  Forall (fun x => 0 <= x <= 4) (pre_values (mkfcase m mo hw cols)).
+Proof.
+  intros Ha Hw m. unfold pre_values. simpl. apply Forall_forall. intros x Hx.
+  apply in_map_iff in Hx. destruct Hx as [cl [<- _]]. unfold col_agg.
+  destruct a; try congruence; (split; [apply agg_nonneg; [assumption | apply pt_nonneg] |
+    apply agg_upper; [lra | assumption | apply pt_pct_sq_range]]).
+Qed.
+(* the square root of a value in [0,4] lies in [0,2]; averaging over outputs keeps the bounds *)
+Lemma sqrt_le_2 s x : 0 <= s -> s ^ 2 == x -> x <= 4 -> s <= 2.
+Proof.
+  intros Hs H Hx. apply (root_le 2 s 2); [assumption | lra|]. rewrite H.
+  change (2 ^ 2) with 4. assumption.
+Qed.
+Theorem post_range hi c roots : 0 <= hi -> mo_ok (f_mo c) ->
+  Forall (fun x => 0 <= x <= hi) roots -> Forall (fun x => 0 <= x <= hi) (post c roots).
+Proof.
+  intros Hh Hm H.
+  assert (all_nonneg roots) as N by (eapply Forall_impl; [|exact H]; simpl; intros ? [? ?]; assumption).
+  assert (Forall (fun x => x <= hi) roots) as U
+    by (eapply Forall_impl; [|exact H]; simpl; intros ? [? ?]; assumption).
+  unfold post. destruct (fam (f_m c)); try assumption.
+  pose proof (mo_avg_nonneg _ _ Hm N) as N'. pose proof (mo_avg_upper hi _ _ Hh Hm U) as U'.
+  clear - N' U'. induction N'; inversion U'; subst; constructor; [split; assumption | auto].
+Qed.
+
+(* scaled errors: invariant under rescaling all series by c > 0, provided the in-sample naive
+   error is not clamped (>= EPS) before and after *)
+Definition scaled_den (k : pw0) (a : aggk) (sp : nat) (mo : mout) (cols : list col) : list Q :=
+  mo_avg mo (map (fun cl => agg a None (naive_errs k sp (c_train cl))) cols).
+Definition scaled_num (k : pw0) (a : aggk) (mo : mout) hw (cols : list col) : list Q :=
+  mo_avg mo (map (fun cl => agg a hw (pt BPlain (P0 k) cl)) cols).
+
+Lemma scaled_den_scale k a sp mo cols c : 0 < c ->
+  eql (scaled_den k a sp mo (map (scale_col c) cols))
+      (map (Qmult (sc k c)) (scaled_den k a sp mo cols)).
+Proof.
+  intro Hc. unfold scaled_den. eapply eql_trans; [|apply mo_avg_scale]. apply mo_avg_eql.
+  rewrite !map_map. induction cols as [|cl cols IH]; simpl; constructor; [|assumption].
+  rewrite <- (agg_scale (sc k c) a None _ (sc_pos k c Hc)). apply agg_eql. apply naive_scale.
+  assumption.
+Qed.
+Lemma scaled_num_scale k a mo hw cols c : 0 < c ->
+  eql (scaled_num k a mo hw (map (scale_col c) cols))
+      (map (Qmult (sc k c)) (scaled_num k a mo hw cols)).
+Proof.
+  intro Hc. unfold scaled_num. eapply eql_trans; [|apply mo_avg_scale]. apply mo_avg_eql.
+  rewrite !map_map. induction cols as [|cl cols IH]; simpl; constructor; [|assumption].
+  rewrite <- (agg_scale (sc k c) a hw _ (sc_pos k c Hc)). apply agg_eql. apply pt_plain_scale.
+  assumption.
+Qed.
+Lemma ratio_scale s num den num' den' : 0 < s ->
+  eql num' (map (Qmult s) num) -> eql den' (map (Qmult s) den) ->
+  Forall (fun d => EPS <= d) den -> Forall (fun d => EPS <= d) den' ->
+  eql (ratio num' den') (ratio num den).
+Proof.
+  intros Hs Hn; revert den den'. unfold ratio, map2.
+  remember (map (Qmult s) num) as sn eqn:En. revert num En.
+  induction Hn as [|x' y l' ln Hx Hn IH]; intros num En den den' Hd H1 H2.
+  - destruct num; [|discriminate]. constructor.
+  - destruct num as [|x num]; [discriminate|]. simpl in En. injection En as Ey El. subst y.
+    destruct Hd as [|d' dy dl' dl Hdx Hd].
+    + destruct den; [constructor | discriminate].
+    + destruct den as [|d den]; [discriminate|]. simpl in *. subst.
+      inversion H1; subst. inversion H2; subst. constructor.
+      * simpl. rewrite (qmax_hyp _ H3), (qmax_hyp _ H5), Hx, Hdx.
+        pose proof EPS_pos. field. split; lra.
+      * apply (IH num eq_refl den dl'); assumption.
+Qed.
+Theorem scaled_scale_invariant k a sp rt mo hw cols c : 0 < c ->
+  let m := mkmetric (FScaled k a sp) rt in
+  Forall (fun d => EPS <= d) (scaled_den k a sp mo cols) ->
+  Forall (fun d => EPS <= d) (scaled_den k a sp mo (map (scale_col c) cols)) ->
+  eql (pre_values (mkfcase m mo hw (map (scale_col c) cols))) (pre_values (mkfcase m mo hw cols)).
+Proof.
+  intros Hc m H1 H2. unfold pre_values. simpl.
+  apply (ratio_scale (sc k c)); try assumption.
+  - apply sc_pos. assumption.
+  - apply (scaled_num_scale k a mo hw cols c Hc).
+  - apply (scaled_den_scale k a sp mo cols c Hc).
+Qed.
+
+(* multi-output: raw values are the univariate metric of each column *)
+Theorem raw_is_columnwise m hw cols :
+  pre_values (mkfcase m Raw hw cols) =
+  flat_map (fun cl => pre_values (mkfcase m Raw hw [cl])) cols.
+Proof.
+  unfold pre_values. simpl. destruct (fam m) as [b k a|k a sp|k a]; simpl.
+  - induction cols; simpl; congruence.
+  - unfold ratio, map2. induction cols; simpl; congruence.
+  - unfold ratio, map2. induction cols; simpl; congruence.
+Qed.
+Theorem simple_ignores_mo b k a rt mo hw cols :
+  let m := mkmetric (FSimple b k a) rt in
+  pre_values (mkfcase m mo hw cols) = pre_values (mkfcase m Raw hw cols) /\
+  forall roots, post (mkfcase m mo hw cols) roots = mo_avg mo roots.
+Proof. split; reflexivity. Qed.
